@@ -60,3 +60,38 @@ Definition chk_ep (c : case_ep) : bool :=
   let '(first, rs) := c in match replay (ep_init first) rs 0 with None => true | Some _ => false end.
 
 Definition first_bad (c : case_ep) : option nat := let '(first, rs) := c in replay (ep_init first) rs 0.
+
+(* ---------- projections: each property compares the part of the trace it speaks about ---------- *)
+Fixpoint replay_p (keep : effect -> bool) (cmpkeys : bool) (e : ep) (rs : list step_rec) (i : nat) : option nat :=
+  match rs with
+  | [] => None
+  | (l, u, effs, tk, ck) :: r =>
+      let (e', x) := ep_step u e l in
+      if list_eqb effect_eqb (filter keep x) (filter keep effs) &&
+         (negb cmpkeys || (keys_eqb (map fst (table e')) tk && keys_eqb (map fst (cachek e')) ck))
+      then replay_p keep cmpkeys e' r (S i) else Some i
+  end.
+
+Definition chk_ep_p (keep : effect -> bool) (cmpkeys : bool) (c : case_ep) : bool :=
+  let '(first, rs) := c in match replay_p keep cmpkeys (ep_init first) rs 0 with None => true | Some _ => false end.
+Definition first_bad_p (keep : effect -> bool) (cmpkeys : bool) (c : case_ep) : option nat :=
+  let '(first, rs) := c in replay_p keep cmpkeys (ep_init first) rs 0.
+
+(* C07: what the application is told *)
+Definition keep_signals (x : effect) : bool := match x with XFut _ _ | XCb _ _ => true | _ => false end.
+(* C08: what is put on the wire *)
+Definition keep_wire (x : effect) : bool := match x with XEnq _ | XRaised => true | _ => false end.
+(* C09: cancellation, both ends *)
+Definition keep_cancel (x : effect) : bool :=
+  match x with
+  | XEnq (FCancel _ _) | XPub _ PCancelOp | XAppFutCancel _ | XCb _ _ | XFut _ _ => true
+  | _ => false
+  end.
+(* C10: nothing but the key sets *)
+Definition keep_none (x : effect) : bool := false.
+(* C11: what close does to the application *)
+Definition keep_close (x : effect) : bool :=
+  match x with XFut _ _ | XCb _ SError | XPub _ PCancelOp | XAppFutCancel _ => true | _ => false end.
+(* C12: handlers reached and answers given *)
+Definition keep_service (x : effect) : bool := match x with XEnq _ | XHandler _ _ _ => true | _ => false end.
+Definition keep_all (x : effect) : bool := true.
